@@ -791,7 +791,9 @@ class CompartmentalSystem(Statement):
         )
 
     def __hash__(self):
-        return hash((self._t, self._g))
+        # NOTE: The graph object hashes by identity. Use its (order independent)
+        # content to be consistent with __eq__
+        return hash((self._t, frozenset(self._g.nodes)))
 
     def to_dict(self) -> dict[str, Any]:
         comps = [comp for comp in self._g.nodes]
